@@ -139,9 +139,17 @@ def run_C20(ctx, model_available=True):
         C = math.log(mp / mp_past) / max(tw, 1) * (1 if a.is_chart_following else -1)
         elr = (a.fundamental_weight * F + a.chart_weight * C + a.noise_weight * noise) / (a.fundamental_weight + a.chart_weight + a.noise_weight)
         exp_price = mp * math.exp(elr * a.time_window_size)
-        margin_edge = abs(exp_price - mp) <= 1e-9 * mp
+        # every term exactly zero => expected price == market price exactly: decisive (no order);
+        # merely close => rounding may decide either way: not judged
+        exact_tie = (a.fundamental_weight * F == 0.0 and a.chart_weight * C == 0.0 and a.noise_weight * noise == 0.0)
+        margin_edge = abs(exp_price - mp) <= 1e-9 * mp and not exact_tie
         sides = [o.is_buy for o in orders]
-        if not margin_edge:
+        if exact_tie:
+            nontriv.add(h)
+            if orders:
+                add_v(viol("C20/fcn-order-at-exact-tie", "an FCN agent buys exactly when its expected future price exceeds the market price and sells when it is below (neither when they are equal)",
+                           {"sides": sides, "expected_price": exp_price, "market_price": mp}, inp))
+        if not margin_edge and not exact_tie:
             want = [True] if exp_price > mp else [False]
             nontriv.add(h)
             if sides != want:
